@@ -29,8 +29,21 @@ def _mol_run(run, model, opts, nrel_quick, nrel_thorough, exhaustive=None, compl
 
     for am in gens.standard_stream(rng, run.tier):
         one(am, nrel)
-    for am in gens.cfi_files(2 if quick else 8):
-        one(am, 1 if quick else 3)
+    if "C13" in opts:
+        # CFI benchmark graphs (WL-hard): classes only, through the refinement functions themselves --
+        # bliss may need unbounded time on them under an unlucky numbering, which is not what is checked here
+        from tucan.canonicalization import partition_molecule_by_attribute, refine_partitions
+        for am in gens.cfi_files(2 if quick else 8):
+            g = impl.graph_of(am)
+            r = list(refine_partitions(partition_molecule_by_attribute(g, "invariant_code")))[-1]
+            atoms_m, bonds_m = impl.to_model(g)
+            ans = model.q("classes " + common.enc_mol(atoms_m, bonds_m))
+            exp = "ok " + " ".join(str(r.nodes[a]["partition"]) for a, *_ in atoms_m)
+            run.comp("K4")["cases"] += 1
+            run.evaluations += 1
+            run.count("family:cfi")
+            if ans != exp:
+                run.comp("K4")["diffs"].append({"what": "classes differ on a CFI graph", "molecule": am.to_json()})
     if extra_stream:
         for am in extra_stream(rng):
             one(am, nrel)
@@ -128,12 +141,23 @@ SPECS = {
                       "(worklist traversal, sort by Z, Hill formula, tuples, attribute blocks read the graph only through sorted / order-independent views). Unbounded in size and relabelling.",
                 note=NOTE_MODEL, design_ref="DESIGN.md 4.1",
                 rule="same stream + exhaustive small scope grouped by string against brute-force isomorphism classes; strings of relistings compared byte for byte; non-trivial as for C13"),
-    "C02": dict(fn=c02, level="proof", components=["K5", "K7"], assumptions=MOL_ASSUME,
+    "C02": dict(fn=c02, level="proof", components=["K5", "K7", "K8"], assumptions=MOL_ASSUME,
+                claim="Theorem tucan_complete: for every oracle returning a bijection (H1), two molecules with the same emitted string are related by a colour-preserving isomorphism "
+                      "(SameMol); corollary of the character-level round trip ref_parse(tucan m) ~ m. Unbounded. The falsifier groups every molecule of the run by string and compares with "
+                      "independent isomorphism oracles in both directions.",
+                note=NOTE_MODEL, design_ref="DESIGN.md 4.2",
                 rule="same stream + near-miss families (cospectral / same degree sequence pairs, moved labels, CFI) + exhaustive small scope; all molecules of the run grouped by string and "
                      "compared with isomorphism (brute force n<=6, VF2 above) in both directions; non-trivial as for C13"),
-    "C03": dict(fn=c03, level="proof", components=["K5", "K7"], assumptions=MOL_ASSUME,
+    "C03": dict(fn=c03, level="proof", components=["K5", "K7", "K8"], assumptions=MOL_ASSUME,
+                claim="Theorems parse_tucan_roundtrip (printing, lexing, token parsing and listener semantics compose to the identity up to renaming; same atom and bond counts) and "
+                      "tucan_fixed_point (with H2) about the model and the reference reader; the ANTLR parser is tied to the reference reader by K8 only.",
+                note=NOTE_MODEL, design_ref="DESIGN.md 4.3",
                 rule="same stream; parse(tucan(G)) compared with G by an independent matcher, counts, second-generation string; non-trivial as for C13"),
     "C05": dict(fn=c05, level="proof", components=["K7"], assumptions=MOL_ASSUME,
+                claim="Theorem tucan_in_grammar: every emitted string is the spelling of a sentence of the inductive transcription of the published EBNF (tables regenerated from tucan.ebnf/.g4) "
+                      "and lexes back to the same tokens; layout facts (Hill order, counts, a<b, ascending tuples and blocks, positive values) follow from ast_of / ser_ready. "
+                      "The falsifier judges every emitted string with an independent regex/counting validator written from the EBNF text.",
+                note=NOTE_MODEL, design_ref="DESIGN.md 4.5",
                 rule="same stream; every emitted string judged by harness/validator.py (regex + counting from the EBNF text); non-trivial as for C13"),
 }
 
@@ -148,6 +172,65 @@ SPECS["C10"].update(
     note=NOTE_MODEL + " For C10 the theorem is about the reference reader; the implementation inherits it only as far as K8 samples (ANTLR ATN interpreter is outside the model).",
     design_ref="DESIGN.md 4.10", replay=parse_checks.replay)
 SPECS["C11"].update(replay=parse_checks.replay)
+
+
+import misc_checks, text_checks
+for _k, _v in misc_checks.SPECS.items():
+    SPECS[_k] = dict(_v)
+SPECS["C16"].update(
+    claim="Theorems C16_* (22): for every stream of shuffles, each a permutation of the labels, the helper's result is one of the draws applied as a bijective renaming with every atom field and "
+          "bond datum carried, atoms listed in ascending label order on the same label set; with >= 2 bonds and not complete the returned edge set differs (and such a draw exists: "
+          "exists_non_automorphism); determinism = being a function of the stream. random.shuffle is an oracle; K9 replays the generator and compares model and code.",
+    note=NOTE_MODEL + " 'leaves its argument unchanged' is a fact about Python objects: decided by the before/after snapshot of the falsifier, not expressible in a pure model.",
+    design_ref="DESIGN.md 4.16")
+SPECS["C15"].update(level="other",
+    claim="PARTIAL. Proved (unbounded): refinement_total (fuel n+1 suffices: class count grows strictly), final_labels_total (no pop from empty, no missing key, assertion holds, "
+          "loop ends within 2(n+2|E|)+1 steps), tucan_total. Not provable in Gallina: interpreter recursion depth and memory; these are explored by a static no-recursion check of the "
+          "source call graph and by running the real pipeline on instances up to thousands of atoms / refinement rounds chosen with the model's round count.",
+    note=NOTE_MODEL + " Runtime limits (stack, heap) are outside the model.", design_ref="DESIGN.md 4.15",
+    explanation="proof for logical totality of the modelled functions (3 theorems) + exploration of runtime limits (static recursion check, large instances); see coverage.components and input_distribution")
+SPECS["C14"].update(level="other",
+    claim="PARTIAL. Proved: order independence at every place where the code iterates an unordered container (rank_set_order_independent, final_labels_dict_order_independent, "
+          "formula_counter_order_independent); the model is a pure function. Histories (ANTLR caches, module state) and thread schedules live in the runtimes and are explored by K10: "
+          "hash seeds x call orders incl. rejected inputs first x 8 concurrent threads, every result compared with one reference.",
+    note=NOTE_MODEL + " CPython/ANTLR/igraph runtime state is outside the model.", design_ref="DESIGN.md 4.14",
+    explanation="proof for hash-order configurations (3 theorems) + exploration of call histories and thread schedules (K10)")
+
+TEXT_ASSUME = ["float() / '{:.6f}' are outside the model: coordinates are opaque tokens in the model and are compared numerically by the harness",
+               "the Gallina reader/writer model computes what the Python computes: K1/K2/K3 on this run's texts (renderings of abstract molecules under every spelling knob, corpus files, malformed stream)"]
+SPECS["C09"] = dict(fn=text_checks.c09, level="proof", components=["K3", "K1"], assumptions=TEXT_ASSUME,
+    rule="graphs with atom/bond line lengths targeted at 70..74, 141..146, 212..217 (label gaps, big masses, long coordinates), random in-range graphs with extreme floats, the molecule stream, and the "
+         "tucan->graph->molfile->graph->tucan pipeline; an independent strict reader checks line length and structure. non-trivial = at least one wrapped line",
+    claim="Theorems C09_* (14): no written line exceeds 79 characters (80 with the newline) for the regenerated wrap constants; the reader's continuation logic undoes the writer's wrapping for any "
+          "line length and any number of wraps (unwrap_wrap); write_read_roundtrip: read_v3000(write_lines m) returns exactly the atoms in order (element, charge in range, radical 1..3, mass>0, "
+          "coordinate tokens) and bonds with types. '{:.6f}' and float() are oracles (coordinate tokens).",
+    note=NOTE_MODEL, design_ref="DESIGN.md 4.9", replay=lambda run, model, rp: (1 if text_checks.replay_text(run, model, rp.get("hit") or {}) else 0))
+
+
+_treplay = lambda run, model, rp: (1 if text_checks.replay_text(run, model, rp.get("hit") or {}) else 0)
+SPECS["C07"] = dict(fn=text_checks.c07, level="proof", components=["K1"], assumptions=TEXT_ASSUME,
+    rule="abstract molfile molecules (incl. D/T, charges, radicals, masses, star atoms with ENDPTS) rendered plain, with every spelling knob on its own and in random combinations "
+         "(indices, blank runs, property order, explicit defaults, extra atom/bond keywords, continuation at arbitrary positions, header text, counts extras, trailing blocks, CRLF, ...); "
+         "read(text) compared attribute for attribute with the expected molecule. non-trivial = >= 2 atoms and at least one non-default spelling feature",
+    claim="Theorems C07 (19), in particular read_v3000_render: for every abstract molecule and every admissible choice of file indices, blank runs, token order of properties, explicit "
+          "defaults, foreign keywords (EXACHG...), arbitrary continuation cuts (also inside tokens, empty pieces), header and trailing lines, star atoms with ENDPTS, LF/CRLF: the reader "
+          "returns exactly the stated molecule; the result depends on no choice but the index assignment. Needs the regenerated parameter v3000_keyword_exact = true.",
+    note=NOTE_MODEL + " Not rendered (outside the theorem): numerals other than str(n), blanks inside ENDPTS parentheses, a last line without terminator.",
+    design_ref="DESIGN.md 4.7", replay=_treplay)
+SPECS["C08"] = dict(fn=text_checks.c08, level="proof", components=["K1", "K2"], assumptions=TEXT_ASSUME,
+    rule="abstract molecules rendered as V2000 (charge codes vs M  CHG/RAD lines, stale codes, zero entries, grouping into lines of 1..8 entries, line order, unrelated property lines incl. "
+         "A/G/V pairs, atom lists, stext, blank-for-zero fields, D/T) and as V3000; graphs and TUCAN strings compared with each other and with the expected molecule. "
+         "non-trivial = >= 2 atoms and at least one property line or charge code",
+    claim="Theorems C08 (27), in particular read_v2000_render / read_v2000_render_grouped: for every abstract molecule (<= 999 atoms) and every admissible rendering (codes vs property lines, "
+          "any grouping and order of entries, interleaved unrelated lines and alias pairs, atom lists, stext, stale codes) the V2000 reader returns the stated molecule; entry i of a property line is "
+          "decoded from columns [10+8i,13+8i) and [14+8i,17+8i) for every i (lia over the regenerated column constants); M  CHG/RAD lines supersede codes; D/T keep mass 2/3; "
+          "v2000_v3000_agree composes with the V3000 theorem.",
+    note=NOTE_MODEL, design_ref="DESIGN.md 4.8", replay=_treplay)
+SPECS["C11"].update(
+    claim="Theorems C11 (10): parsed graphs are well formed; norm_respell (every respelling in the inductive closure Respell -- tuple order/orientation/repetition, block order/split/merge, "
+          "property order, renumbering within element blocks -- has the same normal form, via SemEq and tucan_invariant), norm_idempotent, norm_canonical, norm_same_molecule; for every oracle "
+          "meeting H1/H2; non-vacuity examples evaluated with the brute-force oracle RefCanon. The ANTLR parser is tied to the reference reader by K8.",
+    note=NOTE_MODEL, design_ref="DESIGN.md 4.11")
 
 
 def replay(run, model, rp):
